@@ -1105,3 +1105,145 @@ package calendar
 //@   ensures result == ite(statutoryDay(solar), 3, ite(dayOff(solar), 2, 1))
 //@   use solarOrder(jqs(lunar, 8), solar) @ lunar#1
 //@   hint lunar#1: lunar.month == lunarMonthOf(solar) && lunar.day == lunarDayOf(solar) && sameDay(jqs(lunar, 8), solar) == (sjdn(solar) == divf(nsec(jq(solar.year, 8))+43200, 86400))
+
+//@ # ================================================================ C18: almanac attributes are functions of their defining inputs
+//@ # Each lemma takes two arbitrary lunar dates that agree on the defining inputs of a group of accessors and proves
+//@ # that every accessor of the group returns the same value on both (non-interference: nothing else is read).
+
+//@ # by the day stem: god directions (all schools), Pengzu stem taboo, clash stem
+//@ ghost func byDayStem(a *Lunar, b *Lunar) [C18]
+//@   requires a.dayGanIndex == b.dayGanIndex
+//@   body
+//@     assert(a.GetDayPositionXi() == b.GetDayPositionXi())
+//@     assert(a.GetDayPositionXiDesc() == b.GetDayPositionXiDesc())
+//@     assert(a.GetDayPositionYangGui() == b.GetDayPositionYangGui())
+//@     assert(a.GetDayPositionYangGuiDesc() == b.GetDayPositionYangGuiDesc())
+//@     assert(a.GetDayPositionYinGui() == b.GetDayPositionYinGui())
+//@     assert(a.GetDayPositionYinGuiDesc() == b.GetDayPositionYinGuiDesc())
+//@     assert(a.GetDayPositionFu() == b.GetDayPositionFu())
+//@     assert(a.GetDayPositionFuDesc() == b.GetDayPositionFuDesc())
+//@     assert(a.GetDayPositionCai() == b.GetDayPositionCai())
+//@     assert(a.GetDayPositionCaiDesc() == b.GetDayPositionCaiDesc())
+//@     assert(a.GetPengZuGan() == b.GetPengZuGan())
+//@     assert(a.GetDayChongGan() == b.GetDayChongGan())
+//@     assert(a.GetDayChongGanTie() == b.GetDayChongGanTie())
+//@     assert(a.GetDayPositionFuBySect(1) == b.GetDayPositionFuBySect(1))
+//@     assert(a.GetDayPositionFuDescBySect(1) == b.GetDayPositionFuDescBySect(1))
+//@     assert(a.GetDayPositionFuBySect(2) == b.GetDayPositionFuBySect(2))
+//@     assert(a.GetDayPositionFuDescBySect(2) == b.GetDayPositionFuDescBySect(2))
+
+//@ # by the hour stem
+//@ ghost func byTimeStem(a *Lunar, b *Lunar) [C18]
+//@   requires a.timeGanIndex == b.timeGanIndex
+//@   body
+//@     assert(a.GetTimePositionXi() == b.GetTimePositionXi())
+//@     assert(a.GetTimePositionXiDesc() == b.GetTimePositionXiDesc())
+//@     assert(a.GetTimePositionYangGui() == b.GetTimePositionYangGui())
+//@     assert(a.GetTimePositionYangGuiDesc() == b.GetTimePositionYangGuiDesc())
+//@     assert(a.GetTimePositionYinGui() == b.GetTimePositionYinGui())
+//@     assert(a.GetTimePositionYinGuiDesc() == b.GetTimePositionYinGuiDesc())
+//@     assert(a.GetTimePositionFu() == b.GetTimePositionFu())
+//@     assert(a.GetTimePositionFuDesc() == b.GetTimePositionFuDesc())
+//@     assert(a.GetTimePositionCai() == b.GetTimePositionCai())
+//@     assert(a.GetTimePositionCaiDesc() == b.GetTimePositionCaiDesc())
+//@     assert(a.GetTimeChongGan() == b.GetTimeChongGan())
+//@     assert(a.GetTimeChongGanTie() == b.GetTimeChongGanTie())
+
+//@ # by the day branch / hour branch: clash branch and animal, sha direction, Pengzu branch taboo
+//@ ghost func byBranch(a *Lunar, b *Lunar) [C18]
+//@   requires a.dayZhiIndex == b.dayZhiIndex && a.timeZhiIndex == b.timeZhiIndex
+//@   body
+//@     assert(a.GetDayChong() == b.GetDayChong())
+//@     assert(a.GetDayChongShengXiao() == b.GetDayChongShengXiao())
+//@     assert(a.GetDaySha() == b.GetDaySha())
+//@     assert(a.GetPengZuZhi() == b.GetPengZuZhi())
+//@     assert(a.GetTimeChong() == b.GetTimeChong())
+//@     assert(a.GetTimeChongShengXiao() == b.GetTimeChongShengXiao())
+//@     assert(a.GetTimeSha() == b.GetTimeSha())
+//@     assert(a.GetDayChong() == LunarUtil.ZHI[modf(a.dayZhiIndex+6, 12)+1])
+//@     assert(a.GetTimeChong() == LunarUtil.ZHI[modf(a.timeZhiIndex+6, 12)+1])
+
+//@ # by the stem-branch pair: nayin, xun, empty branches (every pillar and every variant)
+//@ ghost func byPair(a *Lunar, b *Lunar) [C18]
+//@   requires a.yearGanIndex == b.yearGanIndex && a.yearZhiIndex == b.yearZhiIndex && a.monthGanIndex == b.monthGanIndex && a.monthZhiIndex == b.monthZhiIndex
+//@   requires a.dayGanIndex == b.dayGanIndex && a.dayZhiIndex == b.dayZhiIndex && a.timeGanIndex == b.timeGanIndex && a.timeZhiIndex == b.timeZhiIndex
+//@   requires a.yearGanIndexByLiChun == b.yearGanIndexByLiChun && a.yearZhiIndexByLiChun == b.yearZhiIndexByLiChun && a.yearGanIndexExact == b.yearGanIndexExact && a.yearZhiIndexExact == b.yearZhiIndexExact
+//@   requires a.monthGanIndexExact == b.monthGanIndexExact && a.monthZhiIndexExact == b.monthZhiIndexExact && a.dayGanIndexExact == b.dayGanIndexExact && a.dayZhiIndexExact == b.dayZhiIndexExact
+//@   requires a.dayGanIndexExact2 == b.dayGanIndexExact2 && a.dayZhiIndexExact2 == b.dayZhiIndexExact2
+//@   body
+//@     assert(a.GetYearNaYin() == b.GetYearNaYin())
+//@     assert(a.GetMonthNaYin() == b.GetMonthNaYin())
+//@     assert(a.GetDayNaYin() == b.GetDayNaYin())
+//@     assert(a.GetTimeNaYin() == b.GetTimeNaYin())
+//@     assert(a.GetYearXun() == b.GetYearXun())
+//@     assert(a.GetYearXunByLiChun() == b.GetYearXunByLiChun())
+//@     assert(a.GetYearXunExact() == b.GetYearXunExact())
+//@     assert(a.GetYearXunKong() == b.GetYearXunKong())
+//@     assert(a.GetYearXunKongByLiChun() == b.GetYearXunKongByLiChun())
+//@     assert(a.GetYearXunKongExact() == b.GetYearXunKongExact())
+//@     assert(a.GetMonthXun() == b.GetMonthXun())
+//@     assert(a.GetMonthXunExact() == b.GetMonthXunExact())
+//@     assert(a.GetMonthXunKong() == b.GetMonthXunKong())
+//@     assert(a.GetMonthXunKongExact() == b.GetMonthXunKongExact())
+//@     assert(a.GetDayXun() == b.GetDayXun())
+//@     assert(a.GetDayXunExact() == b.GetDayXunExact())
+//@     assert(a.GetDayXunExact2() == b.GetDayXunExact2())
+//@     assert(a.GetDayXunKong() == b.GetDayXunKong())
+//@     assert(a.GetDayXunKongExact() == b.GetDayXunKongExact())
+//@     assert(a.GetDayXunKongExact2() == b.GetDayXunKongExact2())
+//@     assert(a.GetTimeXun() == b.GetTimeXun())
+//@     assert(a.GetTimeXunKong() == b.GetTimeXunKong())
+
+//@ # by month branch and day branch: the duty god and the twelve heavenly spirits (with type and luck); the duty god is
+//@ # 'establish' exactly when the two branches coincide
+//@ ghost func byMonthDayBranch(a *Lunar, b *Lunar) [C18]
+//@   requires a.monthZhiIndex == b.monthZhiIndex && a.dayZhiIndex == b.dayZhiIndex
+//@   body
+//@     assert(a.GetZhiXing() == b.GetZhiXing())
+//@     assert(a.GetDayTianShen() == b.GetDayTianShen())
+//@     assert(a.GetDayTianShenType() == b.GetDayTianShenType())
+//@     assert(a.GetDayTianShenLuck() == b.GetDayTianShenLuck())
+//@     assert((a.GetZhiXing() == "建") == (a.dayZhiIndex == a.monthZhiIndex))
+//@ ghost func byDayTimeBranch(a *Lunar, b *Lunar) [C18]
+//@   requires a.dayZhiIndexExact == b.dayZhiIndexExact && a.timeZhiIndex == b.timeZhiIndex
+//@   body
+//@     assert(a.GetTimeTianShen() == b.GetTimeTianShen())
+//@     assert(a.GetTimeTianShenType() == b.GetTimeTianShenType())
+//@     assert(a.GetTimeTianShenLuck() == b.GetTimeTianShenLuck())
+
+//@ # by lunar month and day: moon phase name, six-day cycle, season
+//@ ghost func byLunarMonthDay(a *Lunar, b *Lunar) [C18]
+//@   requires a.month == b.month && a.day == b.day
+//@   body
+//@     assert(a.GetYueXiang() == b.GetYueXiang())
+//@     assert(a.GetLiuYao() == b.GetLiuYao())
+//@     assert(a.GetSeason() == b.GetSeason())
+
+//@ # the 28 mansions: fixed by day branch and weekday, and advance one per day in their fixed order
+//@ ghost func byBranchWeek(a *Lunar, b *Lunar) [C18]
+//@   requires a.dayZhiIndex == b.dayZhiIndex && a.weekIndex == b.weekIndex
+//@   body
+//@     assert(a.GetXiu() == b.GetXiu())
+//@     assert(a.GetXiuLuck() == b.GetXiuLuck())
+//@     assert(a.GetZheng() == b.GetZheng())
+//@     assert(a.GetAnimal() == b.GetAnimal())
+//@     assert(a.GetGong() == b.GetGong())
+//@     assert(a.GetShou() == b.GetShou())
+
+//@ # classical laws
+//@ gocode
+//@   var xiuOrder = []string{"角", "亢", "氐", "房", "心", "尾", "箕", "斗", "牛", "女", "虚", "危", "室", "壁", "奎", "娄", "胃", "昴", "毕", "觜", "参", "井", "鬼", "柳", "星", "张", "翼", "轸"}
+
+//@ # the 28 mansions advance one per day in their fixed order (next day: next branch, next weekday)
+//@ ghost func xiuAdvance(a *Lunar, b *Lunar) [C18]
+//@   requires b.dayZhiIndex == modf(a.dayZhiIndex+1, 12) && b.weekIndex == modf(a.weekIndex+1, 7)
+//@   body
+//@     x := a.GetXiu()
+//@     y := b.GetXiu()
+//@     assert(exists(0, 27, func(i int) bool { return x == xiuOrder[i] && y == xiuOrder[modf(i+1, 28)] }))
+
+//@ # the two stem-branch pairs of each nayin (positions 2k and 2k+1 of the sixty-cycle) carry the same nayin, hence one element
+//@ ghost func nayinPairs(k int) [C18]
+//@   requires 0 <= k && k <= 29
+//@   body
+//@     assert(LunarUtil.NAYIN[LunarUtil.JIA_ZI[2*k]] == LunarUtil.NAYIN[LunarUtil.JIA_ZI[2*k+1]])
